@@ -83,6 +83,9 @@ func RandomHistories(w *WorldJSON, seed int64, n, depth int, routers []string, f
 			if (focus == "clientauth" || focus == "code" || focus == "tokenuse") && i%40 == 2 {
 				g.credentialMatrix(emit)
 			}
+			if focus == "exchange" && i%25 == 5 {
+				g.thirdPartyMatrix(emit)
+			}
 			if (focus == "tokenuse" || focus == "exchange") && i%25 == 3 {
 				g.deadTokenMatrix(emit)
 			}
@@ -518,6 +521,10 @@ func (g *gen) next() (string, M) {
 // ref produces a token reference for a token-exchange request.
 func (g *gen) ref(preferGood bool) M {
 	d := g.d
+	if g.focus == "exchange" && g.rng.Intn(8) == 0 {
+		// a third-party token, valid in one position only
+		return M{"kind": g.pick("extSubject", "extActor"), "form": "issued", "id": g.pick("u1", "u2"), "declared": g.pick("jwt", "jwt", "jwt", "access")}
+	}
 	switch k := g.rng.Intn(10); {
 	case k < 5:
 		t := g.tok()
